@@ -36,6 +36,31 @@ type roomEvent struct {
 	IDR        int            `json:"idr"`
 	SHA        int            `json:"sha"`
 	Addl       []string       `json:"addl"`
+	PUD        *int           `json:"pud,omitempty"` // rank of users_default of a power-levels event; nil / -1: key absent
+}
+
+// pud returns the rank of users_default (-1: the content has no such key).
+func (e roomEvent) pud() int {
+	if e.PUD == nil {
+		return -1
+	}
+	return *e.PUD
+}
+
+// plContent is the content of a power-levels event of a room model: the users map and, where the model sets it,
+// users_default (every other threshold keeps its default).
+func (e roomEvent) plContent() map[string]interface{} {
+	users := map[string]int64{}
+	for u, r := range e.PLU {
+		if r >= 0 {
+			users[userIDs[u]] = roomLadder[r]
+		}
+	}
+	c := map[string]interface{}{"users": users}
+	if r := e.pud(); r >= 0 {
+		c["users_default"] = roomLadder[r]
+	}
+	return c
 }
 
 type resQuery struct {
@@ -51,6 +76,7 @@ type resQuery struct {
 	Subgraph     []int       `json:"subgraph"`
 	Rejected     []int       `json:"rejected"`
 	Dishonest    bool        `json:"dishonest"`
+	SPower       []int       `json:"spower"` // sender-power rank of each event of Power (diagnosis)
 }
 
 func init() {
@@ -161,13 +187,7 @@ func materialise(q *resQuery) *roomM {
 			es.Content = map[string]interface{}{"membership": e.Membership}
 		case "pl":
 			es.Type, es.StateKey = "m.room.power_levels", strp("")
-			users := map[string]int64{}
-			for u, r := range e.PLU {
-				if r >= 0 {
-					users[userIDs[u]] = roomLadder[r]
-				}
-			}
-			es.Content = map[string]interface{}{"users": users}
+			es.Content = e.plContent()
 		case "jr":
 			es.Type, es.StateKey = "m.room.join_rules", strp("")
 			es.Content = map[string]interface{}{"join_rule": e.JR}
@@ -319,6 +339,9 @@ func (m *roomM) describe() string {
 			}
 			sort.Strings(us)
 			s += " " + strings.Join(us, ",")
+			if r := e.pud(); r >= 0 {
+				s += fmt.Sprintf(" users_default=%d", roomLadder[r])
+			}
 		}
 		if e.Type == "jr" {
 			s += " " + e.JR
@@ -327,6 +350,36 @@ func (m *roomM) describe() string {
 		parts = append(parts, s)
 	}
 	return strings.Join(parts, "; ")
+}
+
+// powerKeys describes the keys the specification sorted the power events with: the sender's effective level in the
+// power-levels event the event cites (a users entry or users_default), timestamp, event-ID rank.
+func (m *roomM) powerKeys() string {
+	if len(m.q.SPower) != len(m.q.Power) || len(m.q.Power) == 0 {
+		return ""
+	}
+	byID := map[int]roomEvent{}
+	for _, e := range m.q.Events {
+		byID[e.ID] = e
+	}
+	var parts []string
+	for k, id := range m.q.Power {
+		e := byID[id]
+		lvl := "2^53 (creator)"
+		if r := m.q.SPower[k]; r >= 0 && r < len(roomLadder) {
+			lvl = fmt.Sprint(roomLadder[r])
+			for _, a := range e.Auth {
+				if pl := byID[a]; pl.Type == "pl" {
+					if pl.PLU[e.Sender] < 0 {
+						lvl += " via users_default"
+					}
+					break
+				}
+			}
+		}
+		parts = append(parts, fmt.Sprintf("%d: %s power %s ts %d id-rank %d", id, e.Sender, lvl, e.TS, e.IDR))
+	}
+	return " sorted by (sender power desc, ts, id) with keys [" + strings.Join(parts, "; ") + "]"
 }
 
 // shapeKey is the canonical abstract key of a query: the multiset of (type, action) of the events that differ
@@ -415,8 +468,8 @@ func c10Replay(i int, raw json.RawMessage, seed int) Result {
 		g := m.idsOf(got)
 		if !sameInts(g, want) {
 			return &Result{OK: false, NT: nt, Key: fmt.Sprintf("C10/%s/algo=%d/%s", entry, algo, m.shapeKey()), Want: want, Got: g,
-				What: fmt.Sprintf("%s (room version %s): resolved state %v, specification says %v; state sets %v; power order %v, others %v, auth difference %v, subgraph %v; room: %s",
-					entry, q.Ver, g, want, q.Sets, q.Power, q.Others, q.AuthDiff, q.Subgraph, m.describe())}
+				What: fmt.Sprintf("%s (room version %s): resolved state %v, specification says %v; state sets %v; power order %v%s, others %v, auth difference %v, subgraph %v; room: %s",
+					entry, q.Ver, g, want, q.Sets, q.Power, m.powerKeys(), q.Others, q.AuthDiff, q.Subgraph, m.describe())}
 		}
 		return nil
 	}
